@@ -7,6 +7,39 @@ def fingerprint(case, d):
     return None
 
 
+def doc_snippets():
+    """every literal block of the documentation (doc/**/*.rst, README.rst), as written and - for fragments - after a minimal
+    metadata block; blocks that are not Blackbird do not parse and are skipped by the caller like any ungrammatical text"""
+    import glob, os, textwrap
+    out = []
+    files = sorted(glob.glob(os.path.join(common.REPO, "doc", "**", "*.rst"), recursive=True)) + [os.path.join(common.REPO, "README.rst")]
+    for f in files:
+        try:
+            lines = open(f, encoding="utf-8", errors="replace").read().split("\n")
+        except OSError:
+            continue
+        i = 0
+        while i < len(lines):
+            ln = lines[i]
+            if ln.strip().startswith(".. code-block::") or ln.rstrip().endswith("::"):
+                ind = len(ln) - len(ln.lstrip())
+                j = i + 1
+                blk = []
+                while j < len(lines) and (not lines[j].strip() or len(lines[j]) - len(lines[j].lstrip()) > ind):
+                    blk.append(lines[j])
+                    j += 1
+                body = textwrap.dedent("\n".join(blk)).strip("\n")
+                if body.strip():
+                    out.append(body + "\n")
+                    if not body.lstrip().startswith("name"):
+                        out.append("name doc\nversion 1.0\n" + body + "\n")
+                        out.append("name doc\nversion 1.0\ntype tdm (temporal_modes=2)\n" + body + "\n")
+                i = j
+            else:
+                i += 1
+    return out
+
+
 def real_world(rep):
     """The repository's example scripts and every script text its own test-suite parses: TLC (Trace_Load) is the oracle for the
     program each denotes, and validates the trace of listener callbacks recorded from the real load."""
@@ -21,6 +54,12 @@ def real_world(rep):
         texts = [(None, t) for t in json.load(open(out))]
     for f in sorted(glob.glob(os.path.join(common.REPO, "examples", "*.xbb"))):
         texts.append((f, open(f).read()))
+    ndoc = 0
+    for t in doc_snippets():
+        if (None, t) not in texts:
+            texts.append((None, t))
+            ndoc += 1
+    rep.cov["documentation_code_blocks_tried"] = ndoc
     cases = []
     skipped = 0
     for path, text in texts:
